@@ -20,9 +20,9 @@ FalseB == Norm(Bytes(<<70, 97, 108, 115, 101>>))       \* "False"
 (* ---- UTF-8 *)
 IsScalar(cp) == cp >= 0 /\ cp <= 1114111 /\ ~(cp >= 55296 /\ cp <= 57343)     \* not a surrogate
 Utf8(cp) == IF cp < 128 THEN <<cp>>
-            ELSE IF cp < 2048 THEN <<192 + cp \div 64, 128 + cp % 64>>
-            ELSE IF cp < 65536 THEN <<224 + cp \div 4096, 128 + (cp \div 64) % 64, 128 + cp % 64>>
-            ELSE <<240 + cp \div 262144, 128 + (cp \div 4096) % 64, 128 + (cp \div 64) % 64, 128 + cp % 64>>
+            ELSE IF cp < 2048 THEN <<192 + (cp \div 64), 128 + (cp % 64)>>
+            ELSE IF cp < 65536 THEN <<224 + (cp \div 4096), 128 + ((cp \div 64) % 64), 128 + (cp % 64)>>
+            ELSE <<240 + (cp \div 262144), 128 + ((cp \div 4096) % 64), 128 + ((cp \div 64) % 64), 128 + (cp % 64)>>
 RECURSIVE Utf8Seq(_)
 Utf8Seq(cps) == IF cps = <<>> THEN <<>> ELSE Bytes(Utf8(cps[1])) \o Utf8Seq(Tail(cps))
 
